@@ -29,13 +29,15 @@ VARIABLES tab,        \* session table entry: "none" | "open" | "deleted"
           backendRcvd, clientRcvd,
           backendSawClose,
           call,       \* [Calls -> [kind, pc, status]]
-          panic
-vars == <<tab, done, chClosed, cq, sq, sqClosed, writer, reader, nextC, nextS, backendRcvd, clientRcvd, backendSawClose, call, panic>>
+          panic,
+          bFirst,     \* (history) the backend closed the websocket itself
+          last        \* (history) <<kind, status>> of the call answered most recently
+vars == <<tab, done, chClosed, cq, sq, sqClosed, writer, reader, nextC, nextS, backendRcvd, clientRcvd, backendSawClose, call, panic, bFirst, last>>
 
 Idle == [kind |-> "none", pc |-> "idle", status |-> 0]
 Init == /\ tab = "open" /\ done = FALSE /\ chClosed = FALSE /\ cq = <<>> /\ sq = <<>> /\ sqClosed = FALSE
         /\ writer = "run" /\ reader = "run" /\ nextC = 1 /\ nextS = 1 /\ backendRcvd = <<>> /\ clientRcvd = <<>>
-        /\ backendSawClose = FALSE /\ call = [c \in Calls |-> Idle] /\ panic = FALSE
+        /\ backendSawClose = FALSE /\ call = [c \in Calls |-> Idle] /\ panic = FALSE /\ bFirst = FALSE /\ last = <<"none", 0>>
 
 CLOSEMSG == 0
 Ret(c, st) == call' = [call EXCEPT ![c] = [@ EXCEPT !.pc = "returned", !.status = st]]
@@ -145,14 +147,19 @@ CloseChan(c) ==         \* close(conn.clientMessages)
   /\ Ret(c, 200)
   /\ UNCHANGED <<tab, done, cq, sq, sqClosed, writer, reader, nextC, nextS, backendRcvd, clientRcvd, backendSawClose>>
 
-Next == BackendSend \/ BackendClose \/ ReaderSeesDone \/ WriterStep
-        \/ \E c \in Calls : DataStart(c) \/ DataLoad(c) \/ DataCheck(c) \/ DataSend(c) \/ DataGiveUp(c)
-                            \/ PollStart(c) \/ PollLoad(c) \/ PollRead(c)
-                            \/ CloseStart(c) \/ CloseLoad(c) \/ CloseDelete(c) \/ CloseSend(c) \/ CloseGiveUp(c) \/ CloseChan(c)
-Fair == /\ WF_vars(WriterStep) /\ WF_vars(ReaderSeesDone)
-        /\ \A c \in Calls : /\ WF_vars(DataLoad(c)) /\ WF_vars(DataCheck(c)) /\ WF_vars(DataSend(c)) /\ WF_vars(DataGiveUp(c))
-                            /\ WF_vars(PollLoad(c)) /\ WF_vars(PollRead(c))
-                            /\ WF_vars(CloseLoad(c)) /\ WF_vars(CloseDelete(c)) /\ WF_vars(CloseSend(c)) /\ WF_vars(CloseGiveUp(c)) /\ WF_vars(CloseChan(c))
+JustReturned == {c \in Calls : call[c].pc # "returned" /\ call'[c].pc = "returned"}
+K(A) == /\ A /\ UNCHANGED bFirst      \* (history variables: only BackendClose sets bFirst; last follows the answers)
+        /\ last' = IF JustReturned = {} THEN last
+                   ELSE LET c == CHOOSE c \in JustReturned : TRUE IN <<call'[c].kind, call'[c].status>>
+Next == \/ (BackendClose /\ bFirst' = TRUE /\ UNCHANGED last)
+        \/ K(BackendSend \/ ReaderSeesDone \/ WriterStep)
+        \/ \E c \in Calls : K(DataStart(c) \/ DataLoad(c) \/ DataCheck(c) \/ DataSend(c) \/ DataGiveUp(c)
+                               \/ PollStart(c) \/ PollLoad(c) \/ PollRead(c)
+                               \/ CloseStart(c) \/ CloseLoad(c) \/ CloseDelete(c) \/ CloseSend(c) \/ CloseGiveUp(c) \/ CloseChan(c))
+Fair == /\ WF_vars(K(WriterStep)) /\ WF_vars(K(ReaderSeesDone))
+        /\ \A c \in Calls : /\ WF_vars(K(DataLoad(c))) /\ WF_vars(K(DataCheck(c))) /\ WF_vars(K(DataSend(c))) /\ WF_vars(K(DataGiveUp(c)))
+                            /\ WF_vars(K(PollLoad(c))) /\ WF_vars(K(PollRead(c)))
+                            /\ WF_vars(K(CloseLoad(c))) /\ WF_vars(K(CloseDelete(c))) /\ WF_vars(K(CloseSend(c))) /\ WF_vars(K(CloseGiveUp(c))) /\ WF_vars(K(CloseChan(c)))
 Spec == Init /\ [][Next]_vars /\ Fair
 
 (* ---- properties ---- *)
@@ -170,4 +177,23 @@ Answered == \A c \in Calls : (call[c].pc # "idle") ~> (call[c].pc = "returned")
 CloseReachesBackend == \A c \in Calls : (call[c].kind = "close" /\ call[c].pc = "returned" /\ call[c].status = 200) ~> (backendSawClose \/ done)
 \* C12: when the backend closes first, polls deliver what was received and then report the session closed
 DrainThenClosed == [][\A c \in Calls : (call[c].kind = "poll" /\ call[c].pc = "read" /\ call'[c].pc = "returned" /\ call'[c].status = 400) => sq = <<>>]_vars
+
+(* ---- refinement: the shim implements the observable behaviour WsShimObs (one session) ---- *)
+DataCalls(P(_)) == Cardinality({c \in Calls : call[c].kind = "data" /\ P(c)})
+Pending(c) == call[c].pc \notin {"idle", "returned"}
+Refused(c) == call[c].pc = "returned" /\ call[c].status # 200
+Ended == \E c \in Calls : call[c].pc = "returned" /\ \/ (call[c].kind = "close" /\ call[c].status = 200)
+                                                         \/ (call[c].kind = "poll" /\ call[c].status = 400)
+S1 == {"s"}
+Obs == INSTANCE WsShimObs WITH Sess <- S1,
+         osess <- [s \in S1 |-> IF Ended THEN "closed" ELSE "open"],
+         oclosing <- [s \in S1 |-> \E c \in Calls : call[c].kind = "close"],
+         oann <- [s \in S1 |-> (nextC - 1) + DataCalls(Pending) + DataCalls(Refused)],
+         obrecv <- [s \in S1 |-> Len(backendRcvd)],
+         obsent <- [s \in S1 |-> nextS - 1],
+         ocrecv <- [s \in S1 |-> Len(clientRcvd)],
+         obclosed <- [s \in S1 |-> bFirst],
+         osaw <- [s \in S1 |-> backendSawClose],
+         oans <- last
+ImplementsObs == Obs!OSpec
 =============================================================================
